@@ -208,6 +208,10 @@ def stage_replays(pid, tier):
     out = StageOutcome("regression_replays")
     seen_drivers = set()
     t0 = time.time()
+    if os.environ.get("VERIF_SKIP_REPLAYS") and os.environ.get("VERIF_REPO"):
+        # self-test only (never on /repo itself): measures what the generated search of one run finds without the saved cases
+        out.notes.append("saved replays skipped (self-test, generated search only)")
+        return out
     for stage in PROPS[pid]["stages"]:
         if stage["kind"] not in ("pbt",) or stage["driver"] in seen_drivers:
             continue
